@@ -350,7 +350,9 @@ var (
 	basePool   = []string{"http://b.example/d/doc", "http://b.example/d/e/f.rdf", "http://other.example/", "http://b.example/d/doc?q=1", "http://b.example/a/b/c/d", "http://b.example/d/doc#top"}
 	relBases   = []string{"sub/", "../up/doc", "x", "./", "/rooted/base", "//auth.example/p/q", "e/f/g?x=y", "../../"}
 	absIRIs    = []string{"http://a.example/x", "http://b.example/d/e/f", "http://b.example/d/doc", "urn:x:y", "http://b.example/d/doc#frag", "mailto:a@b.example", "http://a.example/é/ü?k=v#f", "http://a.example/a%20b", "http://b.example/", "http://b.example/d/"}
-	relRefs    = []string{"name", "sub/name", "../up", "./here", "#frag", "", "?q=1", "/rooted", "//other.example/p", "../../x", "a/./b/../c", "#a", "x#y", "é", ".", "..", "a//b", "doc"}
+	relRefs    = []string{"name", "sub/name", "../up", "./here", "#frag", "", "?q=1", "/rooted", "//other.example/p", "../../x", "a/./b/../c", "#a", "x#y", "é", ".", "..", "a//b", "doc",
+		// a colon that belongs to the query or fragment, not to a scheme (RFC 3986 4.2 only restricts the first path segment)
+		"#sec:1", "?t=12:30", "item?ref=urn:x", "p/q:r", "./a:b", "#a:b/c"}
 	nsPool     = []string{"http://e/", "http://example.org/ns#", "http://e/", "urn:p:", "http://e/sub/", "http://www.w3.org/2000/01/rdf-schema#", "http://é.example/ns/"}
 	localPool  = []string{"p", "q", "name", "é", "p-1", "_u", "a.b", "value", "P2", "li", "type", "Description", "x_y", "nodeID"}
 	rdfProps   = []string{"value", "first", "rest", "subject", "predicate", "object", "_1", "_2", "_3", "_10", "type", "Seq", "Bag", "Alt", "Statement", "Property", "List", "nil", "XMLLiteral", "foo"}
